@@ -155,6 +155,9 @@ func (p *Pkg) AtomsByName(names []string) ([]*Atom, bool) {
 	for _, a := range p.Atoms() {
 		idx[a.Name] = a
 	}
+	for _, a := range p.ExposedAtoms() {
+		idx[a.Name] = a
+	}
 	var out []*Atom
 	for _, n := range names {
 		a, ok := idx[n]
